@@ -162,7 +162,9 @@ def run(chk: core.Check, tier: str, seed: int) -> None:
                 continue
             for op in (OPS if tier != "quick" else rng.sample(OPS, 2)):
                 for q in (f"$.t[?@ {op} {lit(sp, c)}]", f"$.o[?{lit(sp, c)} {op} @]", f"$.t[?@ {op} $.ref]", f"$.o[?value(@) {op} $.refs[0]]",
-                          f"$.t[?@ {op} @]", f"$..[?@ {op} {lit(sp, c)}]"):
+                          f"$.t[?@ {op} @]", f"$..[?@ {op} {lit(sp, c)}]",
+                          # a relative query with a segment against a function result: on scalar children both are Nothing
+                          f"$.t[?@.zz {op} value(@.yy)]", f"$.o[?length(@.zz) {op} @[0]]", f"$.t[?value(@.a) {op} @.a]", f"$.t[?@.a {op} length(@)]"):
                     if tier != "quick" or rng.random() < 0.5:
                         recs.append(impl.rec_find(jp, q, doc, edoc=edoc))
     chk.notes["sibling_records"] = len(recs) - n_before
